@@ -45,6 +45,18 @@ class FuncId:
         return f"{self.rel}:{self.qual}"
 
 
+def _identity_key_only(call: ast.Call) -> bool:
+    """`id(x)` whose value is used only to address a table entry (`t[id(x)]`, `id(x) in t`): the number itself
+    varies from run to run but never reaches an ordering or the output."""
+    from .prog import parent
+    p = parent(call)
+    if isinstance(p, ast.Subscript) and p.slice is call:
+        return True
+    if isinstance(p, ast.Compare) and p.left is call and len(p.ops) == 1 and isinstance(p.ops[0], (ast.In, ast.NotIn)):
+        return True
+    return False
+
+
 class Effects:
     def __init__(self, prog: Program):
         self.prog = prog
@@ -232,7 +244,8 @@ class Effects:
                 else:
                     out.add(FS_WRITE)
             if name.startswith(NONDET_PREFIX) or name in NONDET_FUNCS:
-                out.add(NONDET)
+                if not (name == "id" and _identity_key_only(n)):
+                    out.add(NONDET)
             if isinstance(n.func, ast.Attribute) and n.func.attr in NONDET_METHODS and self._pathish(n.func.value):
                 out.add(NONDET)
             if isinstance(n.func, ast.Attribute) and n.func.attr in PARSE_METHODS:
